@@ -149,6 +149,12 @@ def classify(pid, results, baseline, known):
             seen_funcs.add(fname)
             rep["functions"].append({"name": fname, "mode": f["mode"], "loops": f.get("loops", 0), "error": f.get("error", ""),
                                      "loops_without_invariant": f.get("loops_without_invariant") or [], "gen_ms": f.get("gen_ms")})
+            # a call-site clause that defined ghosts (set ...) on the baseline tree and matches no call now: the logical
+            # variables it defined (the position a library call returned ...) are undefined, clauses over them are not decided
+            gone = sorted(set((baseline.get(pid, {}).get("used_set_clauses") or {}).get(fname, [])) - set(f.get("used_set_clauses") or []))
+            if gone and not f.get("error"):
+                f.setdefault("drift", [])
+                f["drift"] = list(f["drift"]) + ["anchor not found: setat (the call `%s` whose clause defines ghosts is gone)" % c for c in gone]
             for d in f.get("drift") or []:
                 rep["drift"].append(fname + ": " + d)
             if f.get("error"):
@@ -450,8 +456,13 @@ def main():
                     for gc in fr.get("guard_clauses") or []:
                         clauses.add(fr["pkg"].replace("github.com/ozontech/file.d/", "") + "::" + gc)
             locked = sorted(c for c in clauses if c not in failed)
+            used_sets = {}
+            for res in results:
+                for fr in res["functions"]:
+                    if fr.get("used_set_clauses"):
+                        used_sets[fr["pkg"].replace("github.com/ozontech/file.d/", "") + "::" + fr["name"]] = sorted(set(fr["used_set_clauses"]))
             baseline[pid] = {"clauses": locked, "functions": sorted(f["name"] for f in rep["functions"] if not f["error"]),
-                             "obligations": len(rep["obligations"])}
+                             "obligations": len(rep["obligations"]), "used_set_clauses": used_sets}
             os.makedirs(os.path.dirname(BASELINE), exist_ok=True)
             with open(BASELINE, "w") as f:
                 json.dump(baseline, f, indent=1, sort_keys=True)
